@@ -242,3 +242,169 @@ Section Search.
     - intros lo hi E. rewrite E in G. exact G.
   Qed.
 End Search.
+
+(* ====================================================================== *)
+(* 3. instance: the model's Epanechnikov KDE                                *)
+(* ====================================================================== *)
+Section EpanBounds.
+  Variable k : kde.
+  Hypothesis ok : kde_ok k.
+  Hypothesis kern : k_kernel k = KEpan.
+  Hypothesis bok : bounds_ok k.
+
+  (* the total wrapper is the model's KDE.CDF *)
+  Lemma kde_cdf_q_epan (x : Q) : kde_cdf k x = Some (XFin (kde_cdf_q k x)).
+  Proof.
+    destruct (kde_matches_spec k ok kern bok x (k_fuel k) (Nat.le_refl _)) as (p & c & _ & C & _).
+    unfold kde_cdf_q. rewrite C. reflexivity.
+  Qed.
+  Lemma kde_cdf_q_epan_mono (a b : Q) : a <= b -> kde_cdf_q k a <= kde_cdf_q k b.
+  Proof.
+    intro L. apply (kde_cdf_monotone k ok kern bok a b _ _ L (kde_cdf_q_epan a) (kde_cdf_q_epan b)).
+  Qed.
+  Lemma kde_cdf_q_epan_bounds : cdf_at_bounds (kde_cdf_q k) (k_b k).
+  Proof.
+    pose proof bok as bok'. unfold bounds_ok in bok'. unfold cdf_at_bounds.
+    destruct (k_b k) as [|m|M|m M|] eqn:B; [exact I| | | |exact bok'].
+    - destruct (kde_cdf_ends k ok kern bok m _ (kde_cdf_q_epan m)) as (_ & _ & E). rewrite B in E.
+      apply E. reflexivity.
+    - destruct (kde_cdf_ends k ok kern bok M _ (kde_cdf_q_epan M)) as (_ & E & _). rewrite B in E.
+      apply E; [cbn; apply Qle_bool_iff; lra | reflexivity].
+    - destruct bok' as [mM _]. split.
+      + destruct (kde_cdf_ends k ok kern bok m _ (kde_cdf_q_epan m)) as (_ & _ & E). rewrite B in E.
+        apply E. reflexivity.
+      + destruct (kde_cdf_ends k ok kern bok M _ (kde_cdf_q_epan M)) as (_ & E & _). rewrite B in E.
+        apply E; [cbn; apply Qle_bool_iff; lra | cbn; apply Qltb_false; lra].
+  Qed.
+
+  Theorem kde_bounds_search_epan (fuel : nat) :
+    kde_bounds_search k fuel <> BrPanic /\
+    forall lo hi : Q, kde_bounds_search k fuel = BrOk lo hi ->
+      exists clo chi : Q, kde_cdf k lo = Some (XFin clo) /\ kde_cdf k hi = Some (XFin chi) /\
+        kde_bounds_ok (k_b k) (XFin lo) (XFin hi) (chi - clo) = true.
+  Proof.
+    unfold kde_bounds_search. rewrite kern.
+    destruct (bounds_search_sound (kde_cdf_q k) kde_cdf_q_epan_mono (k_b k) fuel (k_xs k) kde_cdf_q_epan_bounds)
+      as [NP S].
+    split; [exact NP|]. intros lo hi E. destruct (S lo hi E) as (A & _).
+    exists (kde_cdf_q k lo), (kde_cdf_q k hi). repeat split; [apply kde_cdf_q_epan | apply kde_cdf_q_epan | exact A].
+  Qed.
+End EpanBounds.
+
+(* ====================================================================== *)
+(* 4. instance: the delta kernel (weighted empirical distribution function) *)
+(* ====================================================================== *)
+(* data inside the boundaries (the property's quantifier) *)
+Definition bounds_ok_delta (k : kde) : Prop :=
+  match k_b k with
+  | BNone => True
+  | BLower m => exists hi : Q, pairs_within m hi (kde_ps k)
+  | BUpper M => exists lo : Q, pairs_within lo M (kde_ps k)
+  | BBoth m M => m < M /\ pairs_within m M (kde_ps k)
+  | BBad => False
+  end.
+
+Section DeltaBounds.
+  Variable k : kde.
+  Hypothesis ok : kde_ok_delta k.
+  Hypothesis kern : k_kernel k = KDelta.
+  Hypothesis bok : bounds_ok_delta k.
+
+  Let pok : pairs_ok (kde_ps k). Proof. destruct ok as (A & B & C). apply kpairs_ok; assumption. Qed.
+  Let E := wecdf (kde_ps k).
+
+  Let E_mono a b : a <= b -> E a <= E b.
+  Proof.
+    intro L. unfold E. rewrite <- !wavg_delta_is_wecdf. apply wavg_mono; [exact pok | | exact L].
+    intros s t Lst. unfold delta_cdf.
+    destruct (Qle_bool 0 s) eqn:A, (Qle_bool 0 t) eqn:B; qb; lra.
+  Qed.
+  Let E_range x : 0 <= E x /\ E x <= 1.
+  Proof.
+    unfold E. rewrite <- !wavg_delta_is_wecdf. split.
+    - apply wavg_nonneg; [exact pok|]. intro t. unfold delta_cdf. destruct (Qle_bool 0 t); lra.
+    - rewrite <- (wavg_const (kde_ps k) pok (fun _ => 1) x 1) by (intros; reflexivity).
+      apply wavg_le; [exact pok|]. intros p _. unfold delta_cdf. destruct (Qle_bool 0 (x - fst p)); lra.
+  Qed.
+
+  (* one description for all settings: 0 up to and AT BoundaryMin, 1 from BoundaryMax, the
+     weighted empirical distribution function in between *)
+  Lemma kde_cdf_q_delta (x : Q) :
+    kde_cdf k x = Some (XFin (kde_cdf_q k x)) /\
+    match k_b k with
+    | BNone => kde_cdf_q k x == E x
+    | BLower m => (x <= m -> kde_cdf_q k x == 0) /\ (m < x -> kde_cdf_q k x == E x)
+    | BUpper M => (M <= x -> kde_cdf_q k x == 1) /\ (x < M -> kde_cdf_q k x == E x)
+    | BBoth m M => (x <= m -> kde_cdf_q k x == 0) /\ (M <= x -> kde_cdf_q k x == 1) /\
+                   (m < x -> x < M -> kde_cdf_q k x == E x)
+    | BBad => False
+    end.
+  Proof.
+    pose proof bok as bok'. unfold bounds_ok_delta in bok'. unfold kde_cdf_q.
+    destruct (k_b k) as [|m|M|m M|] eqn:B; [| | | |contradiction].
+    - destruct (delta_cdf_is_weighted_ecdf k ok kern x B) as (c & C & Ec). rewrite C. auto.
+    - destruct bok' as [hi Hin].
+      destruct (delta_cdf_lower k ok kern m m hi x B Hin (Qle_refl m)) as (c & C & E1 & E2). rewrite C. auto.
+    - destruct bok' as [lo Hin].
+      destruct (delta_cdf_upper k ok kern M lo M x B Hin (Qle_refl M)) as (c & C & E1 & E2). rewrite C. auto.
+    - destruct bok' as [mM Hin].
+      destruct (Qlt_le_dec x m) as [L1|L1].
+      { rewrite kde_cdf_delta by (apply ok || exact kern). rewrite B. cbn [reflect_cdf].
+        assert (A : Qltb x m = true) by (apply Qltb_true; exact L1). rewrite A. cbn [option_map].
+        repeat split; try reflexivity; intros; exfalso; lra. }
+      destruct (Qlt_le_dec x M) as [L2|L2].
+      2:{ rewrite kde_cdf_delta by (apply ok || exact kern). rewrite B. cbn [reflect_cdf].
+          assert (A : Qltb x m = false) by (apply Qltb_false; exact L1).
+          assert (A' : Qle_bool M x = true) by (apply Qle_bool_iff; exact L2). rewrite A, A'. cbn [option_map].
+          repeat split; try reflexivity; intros; exfalso; lra. }
+      destruct (delta_cdf_both k ok kern m M B Hin mM x (conj L1 L2)) as (c & C & E1 & E2). rewrite C.
+      repeat split; auto.
+      + intro H. apply E1. lra.
+      + intros; exfalso; lra.
+  Qed.
+
+  Lemma kde_cdf_q_delta_mono (a b : Q) : a <= b -> kde_cdf_q k a <= kde_cdf_q k b.
+  Proof.
+    intro L. destruct (kde_cdf_q_delta a) as [_ Da]. destruct (kde_cdf_q_delta b) as [_ Db].
+    pose proof (E_mono a b L) as Mo. pose proof (E_range a) as Ra. pose proof (E_range b) as Rb.
+    destruct (k_b k) as [|m|M|m M|]; [lra| | | |contradiction].
+    - destruct Da as [A1 A2], Db as [B1 B2].
+      destruct (Qlt_le_dec m a) as [La|La]; [rewrite (A2 La) | rewrite (A1 La)];
+        (destruct (Qlt_le_dec m b) as [Lb|Lb]; [rewrite (B2 Lb) | rewrite (B1 Lb)]); lra.
+    - destruct Da as [A1 A2], Db as [B1 B2].
+      destruct (Qlt_le_dec a M) as [La|La]; [rewrite (A2 La) | rewrite (A1 La)];
+        (destruct (Qlt_le_dec b M) as [Lb|Lb]; [rewrite (B2 Lb) | rewrite (B1 Lb)]); lra.
+    - destruct Da as (A1 & A2 & A3), Db as (B1 & B2 & B3).
+      destruct (Qlt_le_dec m a) as [La|La]; [|rewrite (A1 La)];
+        (destruct (Qlt_le_dec m b) as [Lb|Lb]; [|rewrite (B1 Lb)]);
+        (destruct (Qlt_le_dec a M) as [La'|La']; [try rewrite (A3 La La') | try rewrite (A2 La')]);
+        (destruct (Qlt_le_dec b M) as [Lb'|Lb']; [try rewrite (B3 Lb Lb') | try rewrite (B2 Lb')]); lra.
+  Qed.
+  Lemma kde_cdf_q_delta_bounds : cdf_at_bounds (kde_cdf_q k) (k_b k).
+  Proof.
+    unfold cdf_at_bounds.
+    destruct (k_b k) as [|m|M|m M|] eqn:B; [exact I| | | |].
+    - destruct (kde_cdf_q_delta m) as [_ D]. rewrite B in D. apply D. lra.
+    - destruct (kde_cdf_q_delta M) as [_ D]. rewrite B in D. apply D. lra.
+    - split.
+      + destruct (kde_cdf_q_delta m) as [_ D]. rewrite B in D. apply D. lra.
+      + destruct (kde_cdf_q_delta M) as [_ D]. rewrite B in D. apply D. lra.
+    - unfold bounds_ok_delta in bok. rewrite B in bok. exact bok.
+  Qed.
+
+  (* the acceptance test with the CDF difference, which is the mass of (lo, hi]; the mass of
+     the closed interval [lo, hi] (delta_mass_in, what Check/C12.v uses) is at least that
+     without boundaries *)
+  Theorem kde_bounds_search_delta (fuel : nat) :
+    kde_bounds_search k fuel <> BrPanic /\
+    forall lo hi : Q, kde_bounds_search k fuel = BrOk lo hi ->
+      exists clo chi : Q, kde_cdf k lo = Some (XFin clo) /\ kde_cdf k hi = Some (XFin chi) /\
+        kde_bounds_ok (k_b k) (XFin lo) (XFin hi) (chi - clo) = true.
+  Proof.
+    unfold kde_bounds_search. rewrite kern.
+    destruct (bounds_search_sound (kde_cdf_q k) kde_cdf_q_delta_mono (k_b k) fuel (k_xs k) kde_cdf_q_delta_bounds)
+      as [NP S].
+    split; [exact NP|]. intros lo hi H. destruct (S lo hi H) as (A & _).
+    exists (kde_cdf_q k lo), (kde_cdf_q k hi). repeat split; [apply kde_cdf_q_delta | apply kde_cdf_q_delta | exact A].
+  Qed.
+End DeltaBounds.
